@@ -23,6 +23,24 @@
 //	unlock_loads_queued_accounts  Manager.Unlock calls loadAccountInfo for the account of every
 //	                              deriveOnUnlock entry before the loop that decrypts account keys
 //
+//	lock_zeroes_account_keys      Manager.lock() calls acctInfo.acctKeyPriv.Zero() before acctInfo.acctKeyPriv = nil
+//	address_lock_zeroes_key       (*managedAddress).lock calls zero.Bytes(a.privKeyCT) before a.privKeyCT = nil
+//	address_lock_zeroes_script    (*baseScriptAddress).lock calls zero.Bytes(a.scriptClearText) before = nil
+//	lock_zeroes_cached_keys       the purge of privKeyCache calls <value>.key.Zero() on every entry it deletes
+//	lock_zeroes_manager_keys      Manager.lock() calls cryptoKeyScript.Zero(), cryptoKeyPriv.Zero(),
+//	                              masterKeyPriv.Zero() and zero.Bytea64(&hashedPrivPassphrase)
+//	markused_wipes_evicted        MarkUsed wipes the address object it deletes from the addrs cache
+//	invalidate_wipes_evicted      InvalidateAccountCache wipes the account key / last addresses it drops
+//	next_wipes_replaced_last      the code that replaces accountInfo.last{External,Internal}Addr wipes the old object
+//	unlock_leaves_no_cleartext_in_dropped  Unlock does not store the clear-text key in the queued objects it forgets
+//	lru_eviction_zeroes           a key pushed out of privKeyCache by Put is zeroed
+//	priv_key_cache_size           defaultPrivKeyCacheSize
+//
+// The last five "wipe" facts are decided here only in the negative (no call
+// that could wipe anything is anywhere near the statement that drops the
+// object); every other shape is refused, and the caller then determines the
+// fact by RUNNING the code (lib/extract_c05.py, probe_facts).
+//
 //	usage: extract-c05 <repo>
 //
 // Everything is syntactic.  Shapes the program does not understand make it
@@ -52,6 +70,17 @@ type result struct {
 	RejectsEmpty  bool              `json:"change_rejects_empty_private"`
 	PrivKeyFirst  bool              `json:"privkey_checks_lock_first"`
 	UnlockLoads   bool              `json:"unlock_loads_queued_accounts"`
+	ZAcct         bool              `json:"lock_zeroes_account_keys"`
+	ZKey          bool              `json:"address_lock_zeroes_key"`
+	ZScript       bool              `json:"address_lock_zeroes_script"`
+	ZCache        bool              `json:"lock_zeroes_cached_keys"`
+	ZMgr          bool              `json:"lock_zeroes_manager_keys"`
+	EMarkUsed     bool              `json:"markused_wipes_evicted"`
+	EInvalidate   bool              `json:"invalidate_wipes_evicted"`
+	ENext         bool              `json:"next_wipes_replaced_last"`
+	EUnlock       bool              `json:"unlock_leaves_no_cleartext_in_dropped"`
+	ELru          bool              `json:"lru_eviction_zeroes"`
+	CacheSize     int               `json:"priv_key_cache_size"`
 	Why           map[string]string `json:"why"`
 	LockCaseTypes []string          `json:"lock_case_types"`
 }
@@ -74,7 +103,7 @@ func parseMethods(dir string) map[string][]method {
 	fset := token.NewFileSet()
 	pkgs, err := parser.ParseDir(fset, dir, func(fi os.FileInfo) bool {
 		n := fi.Name()
-		return !strings.HasSuffix(n, "_test.go") && n != "verif_hooks.go"
+		return !strings.HasSuffix(n, "_test.go") && !strings.HasPrefix(n, "verif_hooks")
 	}, 0)
 	if err != nil {
 		die("parse %s: %v", dir, err)
@@ -86,7 +115,14 @@ func parseMethods(dir string) map[string][]method {
 	}
 	sort.Strings(names)
 	for _, n := range names {
-		for _, f := range pkgs[n].Files {
+		var fnames []string
+		for fn := range pkgs[n].Files {
+			fnames = append(fnames, fn)
+		}
+		sort.Strings(fnames)
+		for _, fn := range fnames {
+			f := pkgs[n].Files[fn]
+			allFiles = append(allFiles, f)
 			for _, d := range f.Decls {
 				fd, ok := d.(*ast.FuncDecl)
 				if !ok || fd.Recv == nil || len(fd.Recv.List) != 1 || fd.Body == nil {
@@ -284,28 +320,69 @@ func mentionsCallName(n ast.Node, name string) bool {
 
 // ---- lock() ---------------------------------------------------------------
 
-// purgesCache: node contains, for scoped manager expression x, either
-// x.privKeyCache = lru.NewCache...(..) or x.privKeyCache.Range(func(k, v) bool { ... x.privKeyCache.Delete(k) ... }).
+// cacheZeroed is set by purgesCache: every entry the purge deletes is zeroed first.
+var cacheZeroed = false
+
+// purgesCache: node contains, for scoped manager expression x,
+// x.privKeyCache.Range(func(k, v) bool { ... [v.key.Zero()] ... x.privKeyCache.Delete(k) ... }).
+// Whether each deleted entry is ZEROED (v.key.Zero() as a statement of the
+// callback's body in front of the Delete) is recorded in cacheZeroed.  A cache
+// that is REPLACED (x.privKeyCache = lru.NewCache[..](..)) is refused: nothing
+// in that statement zeroes the old entries, and whether something else does is
+// for the behavioural probe to find out.
 func purgesCache(n ast.Node, x string) bool {
 	ok := false
 	ast.Inspect(n, func(y ast.Node) bool {
 		switch s := y.(type) {
 		case *ast.AssignStmt:
 			if len(s.Lhs) == 1 && len(s.Rhs) == 1 && str(s.Lhs[0]) == x+".privKeyCache" && s.Tok == token.ASSIGN {
-				if strings.HasPrefix(str(s.Rhs[0]), "lru.NewCache[") {
-					ok = true
-				}
+				die("lock(): %s.privKeyCache is REPLACED (%s): the statement drops the old entries without zeroing them; cannot establish from the source that the cached keys are zeroed", x, str(s.Rhs[0]))
 			}
 		case *ast.CallExpr:
 			if str(s.Fun) == x+".privKeyCache.Range" && len(s.Args) == 1 {
 				if fl, isLit := s.Args[0].(*ast.FuncLit); isLit && len(fl.Type.Params.List) >= 1 && len(fl.Type.Params.List[0].Names) >= 1 {
-					k := fl.Type.Params.List[0].Names[0].Name
-					ast.Inspect(fl.Body, func(z ast.Node) bool {
-						if c, isCall := z.(*ast.CallExpr); isCall && str(c.Fun) == x+".privKeyCache.Delete" && len(c.Args) == 1 && str(c.Args[0]) == k {
-							ok = true
+					var names []string
+					for _, f := range fl.Type.Params.List {
+						for _, nm := range f.Names {
+							names = append(names, nm.Name)
 						}
-						return !ok
-					})
+					}
+					k := names[0]
+					v := ""
+					if len(names) >= 2 {
+						v = names[1]
+					}
+					zeroedAt, deletedAt := -1, -1
+					for i, st := range fl.Body.List {
+						es, isExpr := st.(*ast.ExprStmt)
+						if !isExpr {
+							continue
+						}
+						c, isCall := es.X.(*ast.CallExpr)
+						if !isCall {
+							continue
+						}
+						if str(c.Fun) == x+".privKeyCache.Delete" && len(c.Args) == 1 && str(c.Args[0]) == k && deletedAt < 0 {
+							deletedAt = i
+						}
+						if v != "" && str(c.Fun) == v+".key.Zero" && len(c.Args) == 0 && zeroedAt < 0 {
+							zeroedAt = i
+						}
+					}
+					if deletedAt >= 0 {
+						ok = true
+						cacheZeroed = zeroedAt >= 0 && zeroedAt < deletedAt
+						if !cacheZeroed && mentionsCallName(fl.Body, "Zero") {
+							die("lock(): the purge of %s.privKeyCache mentions Zero() but not as the statement `%s.key.Zero()` in front of the Delete; unknown shape", x, v)
+						}
+					} else {
+						ast.Inspect(fl.Body, func(z ast.Node) bool {
+							if c, isCall := z.(*ast.CallExpr); isCall && str(c.Fun) == x+".privKeyCache.Delete" {
+								die("lock(): the purge callback of %s.privKeyCache deletes entries but not as a plain statement `%s.privKeyCache.Delete(%s)`; unknown shape", x, x, k)
+							}
+							return true
+						})
+					}
 				}
 			}
 		}
@@ -393,7 +470,7 @@ func lockFacts(ms map[string][]method, m method) (purges bool, whyP string, wipe
 	})
 	if !purges {
 		if mentions(body, "privKeyCache") {
-			die("lock(): privKeyCache is referenced but not in a recognised purge (x.privKeyCache = lru.NewCache[..](..) or x.privKeyCache.Range(func(k, v) bool { ..; x.privKeyCache.Delete(k); .. }) inside `for _, x := range %s.scopedManagers`)", r)
+			die("lock(): privKeyCache is referenced but not in a recognised purge (x.privKeyCache.Range(func(k, v) bool { v.key.Zero(); x.privKeyCache.Delete(k); .. }) inside `for _, x := range %s.scopedManagers`)", r)
 		}
 		whyP = "lock() never references privKeyCache"
 	}
@@ -832,9 +909,8 @@ func privKeyChecksFirst(priv, unlock method) (bool, string) {
 			if !returnsError(is.Body) {
 				die("managedAddress.PrivKey: the locked guard does not return an error")
 			}
-			if !woSeen {
-				die("managedAddress.PrivKey: the locked guard precedes the watching-only guard; the model orders them the other way")
-			}
+			// (either order of the two guards: a watching-only manager is
+			// always locked, and the property allows either error there)
 			lkSeen = true
 		default:
 			if mentionsCallName(is, "IsLocked") || mentionsCallName(is, "WatchOnly") {
@@ -1064,6 +1140,351 @@ func unlockLoadsQueued(m method) (bool, string) {
 	return *res, why
 }
 
+// ---- zeroing facts ----------------------------------------------------------
+
+// zeroThenNil: in the statement list, `zeroCall` (rendered callee, with the
+// given single argument rendering, "" = no argument) occurs - directly or
+// inside `if <target> != nil { .. }` - in front of `<target> = nil`.
+// (true, why) / (false, why) when the nil assignment is there without the
+// zeroing call; dies otherwise.
+func zeroThenNil(where string, list []ast.Stmt, target, zeroFun, zeroArg string) (bool, string) {
+	zeroAt, nilAt := -1, -1
+	isZero := func(n ast.Node) bool {
+		found := false
+		ast.Inspect(n, func(x ast.Node) bool {
+			if c, ok := x.(*ast.CallExpr); ok && str(c.Fun) == zeroFun {
+				if (zeroArg == "" && len(c.Args) == 0) || (len(c.Args) == 1 && str(c.Args[0]) == zeroArg) {
+					found = true
+				}
+			}
+			return !found
+		})
+		return found
+	}
+	for i, st := range list {
+		switch s := st.(type) {
+		case *ast.ExprStmt:
+			if isZero(s) && zeroAt < 0 {
+				zeroAt = i
+			}
+		case *ast.IfStmt:
+			if str(s.Cond) == target+" != nil" && s.Else == nil && s.Init == nil && isZero(s.Body) && zeroAt < 0 {
+				zeroAt = i
+			}
+		case *ast.AssignStmt:
+			if len(s.Lhs) == 1 && len(s.Rhs) == 1 && str(s.Lhs[0]) == target && str(s.Rhs[0]) == "nil" && nilAt < 0 {
+				nilAt = i
+			}
+		}
+	}
+	call := zeroFun + "(" + zeroArg + ")"
+	switch {
+	case nilAt >= 0 && zeroAt >= 0 && zeroAt < nilAt:
+		return true, where + " calls " + call + " before " + target + " = nil"
+	case nilAt >= 0 && zeroAt < 0:
+		return false, where + " sets " + target + " = nil without " + call + ": the bytes stay in memory"
+	}
+	die("%s: %s / %s = nil not found in the expected order (zero at %d, nil at %d); unknown shape", where, call, target, zeroAt, nilAt)
+	return false, ""
+}
+
+func lockZeroesAcct(m method) (bool, string) {
+	r := m.recvName
+	var res *bool
+	why := ""
+	for _, st := range m.decl.Body.List {
+		outer, ok := st.(*ast.RangeStmt)
+		if !ok || str(outer.X) != r+".scopedManagers" || outer.Value == nil {
+			continue
+		}
+		x := str(outer.Value)
+		for _, in := range outer.Body.List {
+			inner, ok := in.(*ast.RangeStmt)
+			if !ok || str(inner.X) != x+".acctInfo" || inner.Value == nil {
+				continue
+			}
+			v := str(inner.Value)
+			if !mentions(inner.Body, "acctKeyPriv") {
+				continue
+			}
+			if res != nil {
+				die("lock(): more than one loop over %s.acctInfo touches acctKeyPriv", x)
+			}
+			b, w := zeroThenNil("lock()", inner.Body.List, v+".acctKeyPriv", v+".acctKeyPriv.Zero", "")
+			res, why = &b, w
+		}
+	}
+	if res == nil {
+		die("lock(): no `for _, acctInfo := range x.acctInfo` inside a top-level loop over %s.scopedManagers touches acctKeyPriv", r)
+	}
+	return *res, why
+}
+
+func addrLockZeroes(m method, field string) (bool, string) {
+	r := m.recvName
+	// the statements may sit between Lock()/Unlock() of the object's mutex
+	return zeroThenNil("(*"+m.recvType+").lock", m.decl.Body.List, r+"."+field, "zero.Bytes", r+"."+field)
+}
+
+func lockZeroesMgr(m method) (bool, string) {
+	r := m.recvName
+	want := map[string]bool{
+		r + ".cryptoKeyScript.Zero()":                   false,
+		r + ".cryptoKeyPriv.Zero()":                     false,
+		r + ".masterKeyPriv.Zero()":                     false,
+		"zero.Bytea64(&" + r + ".hashedPrivPassphrase)": false,
+	}
+	for _, st := range m.decl.Body.List {
+		if es, ok := st.(*ast.ExprStmt); ok {
+			if _, ok := want[str(es.X)]; ok {
+				want[str(es.X)] = true
+			}
+		}
+	}
+	n := 0
+	var missing []string
+	for k, v := range want {
+		if v {
+			n++
+		} else {
+			missing = append(missing, k)
+		}
+	}
+	sort.Strings(missing)
+	switch n {
+	case 4:
+		return true, "lock() calls cryptoKeyScript.Zero(), cryptoKeyPriv.Zero(), masterKeyPriv.Zero() and zero.Bytea64(&hashedPrivPassphrase)"
+	case 0:
+		return false, "lock() zeroes none of the crypto keys, the master key and the hashed passphrase"
+	}
+	die("lock(): not all of the four in-place wipes are top-level statements (missing: %s); the model has one fact for the four", strings.Join(missing, ", "))
+	return false, ""
+}
+
+// ---- eviction facts (negative only) -----------------------------------------
+
+// wipeLike: the node contains a call that could wipe a buffer.
+func wipeLike(n ast.Node) bool {
+	found := false
+	ast.Inspect(n, func(x ast.Node) bool {
+		c, ok := x.(*ast.CallExpr)
+		if !ok {
+			return true
+		}
+		name := ""
+		switch f := c.Fun.(type) {
+		case *ast.SelectorExpr:
+			name = f.Sel.Name
+			if id, ok := f.X.(*ast.Ident); ok && id.Name == "zero" {
+				found = true
+			}
+		case *ast.Ident:
+			name = f.Name
+		}
+		l := strings.ToLower(name)
+		if name == "lock" || name == "Zero" || strings.Contains(l, "wipe") || strings.Contains(l, "zero") || strings.Contains(l, "clear") || strings.Contains(l, "scrub") {
+			found = true
+		}
+		return !found
+	})
+	return found
+}
+
+// wipeLikeAddr: the node contains a call that could wipe an ADDRESS OBJECT
+// (a managedAddress has no Zero(): key.Zero() on a derived extended key is
+// something else): a call of a method named lock, a call whose name says wipe /
+// clear / scrub, zero.Bytes(..), or any call that is handed one of the last
+// address fields.
+func wipeLikeAddr(n ast.Node) bool {
+	found := false
+	ast.Inspect(n, func(x ast.Node) bool {
+		c, ok := x.(*ast.CallExpr)
+		if !ok {
+			return true
+		}
+		name := ""
+		switch f := c.Fun.(type) {
+		case *ast.SelectorExpr:
+			name = f.Sel.Name
+			if id, ok := f.X.(*ast.Ident); ok && id.Name == "zero" {
+				found = true
+			}
+		case *ast.Ident:
+			name = f.Name
+		}
+		l := strings.ToLower(name)
+		if name == "lock" || strings.Contains(l, "wipe") || strings.Contains(l, "clear") || strings.Contains(l, "scrub") {
+			found = true
+		}
+		for _, a := range c.Args {
+			if mentions(a, "lastExternalAddr") || mentions(a, "lastInternalAddr") {
+				found = true
+			}
+		}
+		return !found
+	})
+	return found
+}
+
+func dropWithoutWipe(m method, what, deleted string) (bool, string) {
+	r := m.recvName
+	del := false
+	ast.Inspect(m.decl.Body, func(x ast.Node) bool {
+		if c, ok := x.(*ast.CallExpr); ok && str(c.Fun) == "delete" && len(c.Args) == 2 && str(c.Args[0]) == r+"."+deleted {
+			del = true
+		}
+		return true
+	})
+	if !del {
+		die("%s: no delete(%s.%s, ..); unknown shape", what, r, deleted)
+	}
+	if wipeLike(m.decl.Body) {
+		die("%s: contains a call that may wipe the dropped object; whether it does is decided by running the code", what)
+	}
+	return false, what + " deletes from " + r + "." + deleted + " and calls nothing that could wipe the dropped object"
+}
+
+// every assignment to X.lastExternalAddr / X.lastInternalAddr (other than in a
+// composite literal, i.e. a fresh accountInfo): the innermost function around it
+func lastAddrReplaced(files []*ast.File) (bool, string) {
+	found := 0
+	var walk func(n ast.Node, fn ast.Node)
+	walk = func(n ast.Node, fn ast.Node) {
+		ast.Inspect(n, func(x ast.Node) bool {
+			switch y := x.(type) {
+			case *ast.FuncLit:
+				if ast.Node(y) != n {
+					walk(y.Body, y.Body)
+					return false
+				}
+			case *ast.AssignStmt:
+				for i, l := range y.Lhs {
+					sel, ok := l.(*ast.SelectorExpr)
+					if !ok || (sel.Sel.Name != "lastExternalAddr" && sel.Sel.Name != "lastInternalAddr") {
+						continue
+					}
+					if i < len(y.Rhs) && str(y.Rhs[i]) == "nil" {
+						continue
+					}
+					found++
+					if wipeLikeAddr(fn) {
+						die("the function that assigns %s contains a call that may wipe the replaced object; whether it does is decided by running the code", str(l))
+					}
+				}
+			}
+			return true
+		})
+	}
+	for _, f := range files {
+		for _, d := range f.Decls {
+			if fd, ok := d.(*ast.FuncDecl); ok && fd.Body != nil {
+				if fd.Name.Name == "loadAccountInfo" {
+					continue // fills in a FRESH accountInfo: nothing is replaced
+				}
+				// a FuncDecl's own statements (outside function literals) are checked against the whole body
+				walk(fd.Body, fd.Body)
+			}
+		}
+	}
+	if found == 0 {
+		die("no assignment to lastExternalAddr / lastInternalAddr found; unknown shape")
+	}
+	return false, fmt.Sprintf("%d assignments replace accountInfo.last{External,Internal}Addr; nothing near them could wipe the replaced object", found)
+}
+
+func unlockStoresClearText(m method) (bool, string) {
+	stores := false
+	ast.Inspect(m.decl.Body, func(x ast.Node) bool {
+		as, ok := x.(*ast.AssignStmt)
+		if !ok {
+			return true
+		}
+		for i, l := range as.Lhs {
+			if sel, ok := l.(*ast.SelectorExpr); ok && sel.Sel.Name == "privKeyCT" && i < len(as.Rhs) && str(as.Rhs[i]) != "nil" {
+				stores = true
+			}
+		}
+		return true
+	})
+	if !stores {
+		die("Unlock: no assignment to .privKeyCT; whether the queued objects it drops hold clear text is decided by running the code")
+	}
+	return false, "Unlock stores the clear-text key (`.privKeyCT = ..`) in every queued object and then empties the queue"
+}
+
+func lruEvictionZeroes(m method) (bool, string) {
+	r := m.recvName
+	put := r + ".privKeyCache.Put"
+	found := false
+	ignored := false
+	ast.Inspect(m.decl.Body, func(x ast.Node) bool {
+		as, ok := x.(*ast.AssignStmt)
+		if !ok || len(as.Rhs) != 1 {
+			return true
+		}
+		c, ok := as.Rhs[0].(*ast.CallExpr)
+		if !ok || str(c.Fun) != put {
+			return true
+		}
+		found = true
+		if len(as.Lhs) == 2 && str(as.Lhs[0]) == "_" {
+			ignored = true
+		}
+		return true
+	})
+	if !found || !ignored {
+		die("DeriveFromKeyPathCache: `_, err = %s(..)` not found; whether an evicted key is zeroed is decided by running the code", put)
+	}
+	return false, "DeriveFromKeyPathCache ignores whether " + put + " evicted an entry (the LRU has no eviction hook): the evicted key is not zeroed"
+}
+
+func cacheSize(files []*ast.File) int {
+	val := -1
+	for _, f := range files {
+		ast.Inspect(f, func(x ast.Node) bool {
+			vs, ok := x.(*ast.ValueSpec)
+			if !ok {
+				return true
+			}
+			for i, nm := range vs.Names {
+				if nm.Name == "defaultPrivKeyCacheSize" && i < len(vs.Values) {
+					if bl, ok := vs.Values[i].(*ast.BasicLit); ok && bl.Kind == token.INT {
+						var v int
+						if _, err := fmt.Sscanf(strings.ReplaceAll(bl.Value, "_", ""), "%d", &v); err == nil {
+							val = v
+						}
+					}
+				}
+			}
+			return true
+		})
+	}
+	if val <= 0 {
+		die("constant defaultPrivKeyCacheSize (integer literal) not found")
+	}
+	// every cache is created with that capacity
+	n := 0
+	for _, f := range files {
+		ast.Inspect(f, func(x ast.Node) bool {
+			c, ok := x.(*ast.CallExpr)
+			if !ok || !strings.HasPrefix(str(c.Fun), "lru.NewCache[") {
+				return true
+			}
+			n++
+			if len(c.Args) != 1 || str(c.Args[0]) != "defaultPrivKeyCacheSize" {
+				die("lru.NewCache is called with capacity %v, not defaultPrivKeyCacheSize", c.Args)
+			}
+			return true
+		})
+	}
+	if n == 0 {
+		die("no lru.NewCache call found")
+	}
+	return val
+}
+
+var allFiles []*ast.File
+
 func main() {
 	if len(os.Args) != 2 {
 		die("usage: extract-c05 <repo>")
@@ -1082,6 +1503,26 @@ func main() {
 	res.RejectsEmpty, res.Why["change_rejects_empty_private"] = changeRejectsEmpty(one(ms, "ChangePassphrase", "Manager"))
 	res.PrivKeyFirst, res.Why["privkey_checks_lock_first"] = privKeyChecksFirst(one(ms, "PrivKey", "managedAddress"), one(ms, "unlock", "managedAddress"))
 	res.UnlockLoads, res.Why["unlock_loads_queued_accounts"] = unlockLoadsQueued(one(ms, "Unlock", "Manager"))
+
+	res.ZAcct, res.Why["lock_zeroes_account_keys"] = lockZeroesAcct(one(ms, "lock", "Manager"))
+	res.ZKey, res.Why["address_lock_zeroes_key"] = addrLockZeroes(one(ms, "lock", "managedAddress"), "privKeyCT")
+	res.ZScript, res.Why["address_lock_zeroes_script"] = addrLockZeroes(one(ms, "lock", "baseScriptAddress"), "scriptClearText")
+	res.ZCache = res.LockPurges && cacheZeroed
+	if res.ZCache {
+		res.Why["lock_zeroes_cached_keys"] = "the purge callback calls <value>.key.Zero() before it deletes the entry"
+	} else if res.LockPurges {
+		res.Why["lock_zeroes_cached_keys"] = "the purge deletes the entries without zeroing the keys"
+	} else {
+		res.Why["lock_zeroes_cached_keys"] = "lock() does not purge the cache at all"
+	}
+	res.ZMgr, res.Why["lock_zeroes_manager_keys"] = lockZeroesMgr(one(ms, "lock", "Manager"))
+	res.CacheSize = cacheSize(allFiles)
+	res.Why["priv_key_cache_size"] = "defaultPrivKeyCacheSize; every lru.NewCache call uses it"
+	res.EMarkUsed, res.Why["markused_wipes_evicted"] = dropWithoutWipe(one(ms, "MarkUsed", "ScopedKeyManager"), "MarkUsed", "addrs")
+	res.EInvalidate, res.Why["invalidate_wipes_evicted"] = dropWithoutWipe(one(ms, "InvalidateAccountCache", "ScopedKeyManager"), "InvalidateAccountCache", "acctInfo")
+	res.ENext, res.Why["next_wipes_replaced_last"] = lastAddrReplaced(allFiles)
+	res.EUnlock, res.Why["unlock_leaves_no_cleartext_in_dropped"] = unlockStoresClearText(one(ms, "Unlock", "Manager"))
+	res.ELru, res.Why["lru_eviction_zeroes"] = lruEvictionZeroes(one(ms, "DeriveFromKeyPathCache", "ScopedKeyManager"))
 
 	b, err := json.MarshalIndent(res, "", " ")
 	if err != nil {
